@@ -1,5 +1,6 @@
 import WhVerif.Lemmas.C10Swap
 import WhVerif.Lemmas.C10Regions
+import WhVerif.Lemmas.C10RunLoop
 /-!
 # C10 — haplotag conserves every alignment and tags it with the best-agreeing haplotype
 
@@ -350,5 +351,391 @@ example :
   · intro u hu
     simp only [List.mem_cons, List.mem_nil_iff, or_false] at hu
     rcases hu with rfl | rfl | rfl | rfl <;> intro e he <;> cases he <;> decide
+
+/-! ## `run_haplotag` end to end (Model/C10Run.lean) -/
+
+/-- **input tags are irrelevant**: HP/PC/PS present on an input alignment never influence what is written — they are
+replaced (tagged alignments) or removed (all others, also the stale PC of an alignment tagged through its read cloud). -/
+theorem input_tags_irrelevant {α} (c : ChromCtx) (a : Aln α) (t : Tags) :
+    tagAln c { a with tags := t } = tagAln c a := by
+  unfold tagAln; split <;> rfl
+
+/-- **positions handed to the read reader have phase information** (`get_variant_information`): every position in
+`variants` is a key of `vpos_to_phase_info`, … -/
+theorem variant_positions_have_phase_info (calls : List Call) :
+    ∀ p ∈ (variantInfo calls).2, ((variantInfo calls).1.lookup p).isSome := by
+  unfold variantInfo
+  exact variantInfo_fold_covers calls ([], []) (fun p hp => by cases hp)
+
+/-- … hence the decision rule never raises on what `ReadSetReader` delivers (alleles 0/1 at those positions) when
+`--ploidy` is at least 2: the `KeyError`, the `assert` and the `IndexError` of `prepare_haplotag_information` are unreachable. -/
+theorem decision_never_raises {ploidy : Nat} (calls : List Call) (rvs : List RV) (hp : 2 ≤ ploidy)
+    (hr : ∀ v ∈ rvs, v.allele < 2 ∧ v.pos ∈ (variantInfo calls).2) (e : Err) :
+    tagDecision ploidy (variantInfo calls).1 rvs ≠ .error e := by
+  obtain ⟨sc, ha⟩ := accumulate_ok (ploidy := ploidy) (info := (variantInfo calls).1) rvs []
+    (fun v hv => ⟨(hr v hv).1, variant_positions_have_phase_info calls _ (hr v hv).2⟩)
+  have inv : Inv ploidy (variantInfo calls).1 rvs sc := by simpa using inv_accumulate (inv_nil ploidy _) ha
+  unfold tagDecision
+  simp only [ha]
+  cases hps : pickSet sc with
+  | none => simp
+  | some b =>
+    obtain ⟨ps, s⟩ := b
+    simp only
+    have hlen : s.length = ploidy := inv.len _ (pickSet_spec hps).1
+    unfold decideScores
+    have : ¬ s.length < 2 := by omega
+    simp only [this, if_false]
+    split <;> simp
+
+example : (variantInfo [⟨10, false, some (some 7, [0, 1])⟩, ⟨20, true, some (some 7, [1, 1])⟩, ⟨30, false, none⟩,
+      ⟨40, false, some (none, [0, 1])⟩]) = ([(20, (7, [1, 1])), (10, (7, [0, 1]))], [10]) := by decide
+
+/-- **sample selection** (`compute_variant_file_samples_to_use` + `compute_shared_samples`): when both succeed, the samples
+haplotag works on are exactly the VCF samples that were asked for (`--sample`, if given) and — unless
+`--ignore-read-groups` — occur as SM of a read group; there is at least one; every `--sample` is a VCF sample. -/
+theorem shared_samples_spec {vcf bam : List String} {given : Option (List String)} {ignoreRG : Bool} {use sh : List String}
+    (h1 : samplesToUse vcf given ignoreRG = .ok use) (h2 : sharedSamples bam ignoreRG use = .ok sh) :
+    (∀ s, s ∈ sh ↔ s ∈ vcf ∧ (∀ g, given = some g → s ∈ g) ∧ (ignoreRG = false → s ∈ bam)) ∧
+    (ignoreRG = false ∨ given ≠ some [] → sh ≠ []) ∧
+    (∀ g, given = some g → ∀ s ∈ g, s ∈ vcf) ∧
+    (ignoreRG = true → given = none → sh.length = 1) := by
+  have huse : (∀ s, s ∈ use ↔ s ∈ vcf ∧ (∀ g, given = some g → s ∈ g)) ∧ (given ≠ some [] → use ≠ []) ∧
+      (∀ g, given = some g → ∀ s ∈ g, s ∈ vcf) ∧ (ignoreRG = true → given = none → use.length = 1) := by
+    unfold samplesToUse at h1
+    simp only at h1
+    split at h1
+    · cases h1
+    · rename_i hne
+      have hne' : vcf.eraseDups ≠ [] := fun e => hne (by simp [e])
+      split at h1
+      · cases h1
+      · rename_i hmulti
+        cases given with
+        | none =>
+          simp only [Except.ok.injEq] at h1
+          subst h1
+          refine ⟨fun s => by simp [List.mem_eraseDups], fun _ => hne', fun g hg => (by cases hg), ?_⟩
+          intro hi _
+          simp only [hi, Option.isNone_none, Bool.and_self, Bool.true_and, decide_eq_true_eq] at hmulti
+          have : 0 < vcf.eraseDups.length := List.length_pos_iff.2 hne'
+          omega
+        | some g =>
+          simp only at h1
+          split at h1
+          · cases h1
+          · rename_i hall
+            simp only [Except.ok.injEq] at h1
+            subst h1
+            simp only [List.any_eq_true, Bool.not_eq_true', not_exists, not_and, Bool.not_eq_false,
+              List.contains_iff_mem, List.mem_eraseDups] at hall
+            refine ⟨fun s => ?_, ?_, fun g' hg' s hs => ?_, fun _ hn => by cases hn⟩
+            · simp only [List.mem_filter, List.mem_eraseDups, List.contains_iff_mem, Option.some.injEq]
+              constructor
+              · intro ⟨a, b⟩; exact ⟨a, fun g' hg' => hg' ▸ b⟩
+              · intro ⟨a, b⟩; exact ⟨a, b g rfl⟩
+            · intro hg
+              cases g with
+              | nil => exact absurd rfl hg
+              | cons x xs =>
+                intro e
+                have hx : x ∈ List.filter (x :: xs).contains vcf.eraseDups := by
+                  simp only [List.mem_filter, List.mem_eraseDups, List.contains_iff_mem]
+                  exact ⟨hall x List.mem_cons_self, List.mem_cons_self⟩
+                rw [e] at hx
+                cases hx
+            · simp only [Option.some.injEq] at hg'; subst hg'; exact hall s hs
+  obtain ⟨hu1, hu2, hu3, hu4⟩ := huse
+  unfold sharedSamples at h2
+  cases ignoreRG with
+  | true =>
+    simp only [if_true, Except.ok.injEq] at h2
+    subst h2
+    refine ⟨fun s => ?_, ?_, hu3, fun _ hn => hu4 rfl hn⟩
+    · rw [hu1 s]; simp
+    · intro h
+      rcases h with h | h
+      · cases h
+      · exact hu2 h
+  | false =>
+    simp only [Bool.false_eq_true, if_false] at h2
+    split at h2
+    · cases h2
+    · rename_i hne
+      simp only [Except.ok.injEq] at h2
+      subst h2
+      refine ⟨fun s => ?_, fun _ e => hne (by simp [e]), hu3, fun h => by cases h⟩
+      simp only [List.mem_filter, List.contains_iff_mem, hu1 s]
+      constructor
+      · intro ⟨⟨a, b⟩, c⟩; exact ⟨a, b, fun _ => c⟩
+      · intro ⟨a, b, c⟩; exact ⟨⟨a, b⟩, c trivial⟩
+
+example : samplesToUse ["S1", "S2", "S3"] (some ["S3", "S1"]) false = .ok ["S1", "S3"] ∧
+    sharedSamples ["S3", "OTHER", ""] false ["S1", "S3"] = .ok ["S3"] ∧
+    samplesToUse ["S1", "S2"] none true = .error .needSampleOption ∧
+    samplesToUse ["S1", "S2"] (some ["X"]) false = .error .sampleNotInVcf ∧
+    sharedSamples ["OTHER"] false ["S1"] = .error .noSharedSamples := ⟨rfl, rfl, rfl, rfl, rfl⟩
+
+/-- the placed part of the output, record by record with the header index of the contig: exactly `expectedPlaced` -/
+theorem haplotag_placed_conservation {α} {cfg : Config} {contigs : List (ContigIn α)} {w : List (Written α)}
+    (h : haplotagPlaced cfg contigs = .ok w)
+    (hnone : cfg.regions = none → ∀ c ∈ contigs, ∀ a ∈ c.alns, 0 ≤ a.refStart)
+    (hsome : ∀ user, cfg.regions = some user → ValidRegions user ∧
+      ∀ c ∈ contigs, c.alns.Pairwise fun a b => a.refStart ≤ b.refStart) :
+    w.map (fun t => (t.1, t.2.1.erase)) = (expectedPlaced cfg contigs).map fun ia => (ia.1, ia.2.erase) := by
+  unfold haplotagPlaced at h
+  rw [haplotagLoop_erase cfg _ w h]
+  unfold selectContigs expectedPlaced
+  refine Eq.trans (select_flatMap cfg.regions
+    (fun i (c : ContigIn α) rs => if c.inVcf || cfg.writeMissing
+      then (fetchSkip c.alns none rs).map (fun a => (i, a.erase)) else [])
+    (fun i c => by simp [fetchSkip]) contigs.zipIdx) ?_
+  exact flatMap_expected cfg contigs.zipIdx
+    (fun hn ci hci => hnone hn ci.1 (fst_mem_of_mem_zipIdx hci))
+    (fun u hu => ⟨(hsome u hu).1, fun ci hci => (hsome u hu).2 ci.1 (fst_mem_of_mem_zipIdx hci)⟩)
+
+/-- **haplotag_conservation** (the whole run, any option set for which the run ends normally): the output BAM is, in
+this order, the placed input alignments contig after contig in header order — with `--regions` those overlapping a
+requested region of their contig, each once, whatever the order/overlap of the regions given — followed, without
+`--regions`, by the unplaced reads; every record equal to its input record except for HP/PC/PS.  The alignments of a
+contig the VCF does not know are MISSING from the output under `--skip-missing-contigs` (`expectedPlaced` leaves them
+out unless `writeMissing`, the behaviour after fixes/F70.patch).
+Assumptions: coordinate-sorted BAM and no inverted region (only needed with `--regions`), no negative start. -/
+theorem haplotag_conservation {α} {cfg : Config} {contigs : List (ContigIn α)} {unplaced : List (Aln α)} {out : Output α}
+    (h : haplotag cfg contigs unplaced = .ok out)
+    (hnone : cfg.regions = none → ∀ c ∈ contigs, ∀ a ∈ c.alns, 0 ≤ a.refStart)
+    (hsome : ∀ user, cfg.regions = some user → ValidRegions user ∧
+      ∀ c ∈ contigs, c.alns.Pairwise fun a b => a.refStart ≤ b.refStart) :
+    out.alns.map Aln.erase =
+      ((expectedPlaced cfg contigs).map (·.2) ++ (if cfg.regions.isNone then unplaced else [])).map Aln.erase := by
+  unfold haplotag at h
+  cases hw : haplotagPlaced cfg contigs with
+  | error e => rw [hw] at h; cases h
+  | ok w =>
+    rw [hw] at h
+    simp only [Except.ok.injEq] at h
+    subst h
+    have := congrArg (List.map (·.2)) (haplotag_placed_conservation hw hnone hsome)
+    simp only [List.map_map] at this
+    simp only [List.map_append, List.map_map]
+    congr 1
+
+/-- **nothing is lost** unless `--skip-missing-contigs` is in effect: without `--regions`, if the option is absent (or
+after F70), a run that ends normally writes every input alignment exactly once, in input order, unchanged but for
+HP/PC/PS. -/
+theorem haplotag_conserves_everything {α} {cfg : Config} {contigs : List (ContigIn α)} {unplaced : List (Aln α)}
+    {out : Output α} (h : haplotag cfg contigs unplaced = .ok out) (hreg : cfg.regions = none)
+    (hkeep : cfg.skipMissing = false ∨ cfg.writeMissing = true)
+    (hnonneg : ∀ c ∈ contigs, ∀ a ∈ c.alns, 0 ≤ a.refStart) :
+    out.alns.map Aln.erase = ((placedIn contigs).map (·.2) ++ unplaced).map Aln.erase := by
+  rw [haplotag_conservation h (fun _ => hnonneg) (fun u hu => by rw [hreg] at hu; cases hu)]
+  have hall : ∀ ci ∈ contigs.zipIdx, ci.1.alns = [] ∨ (ci.1.inVcf || cfg.writeMissing) = true := by
+    intro ci hci
+    rcases hkeep with hs | hw
+    · unfold haplotag at h
+      cases hp : haplotagPlaced cfg contigs with
+      | error e => rw [hp] at h; cases h
+      | ok w =>
+        unfold haplotagPlaced at hp
+        have hm : (ci.2, ci.1, [((0 : Int), (none : Option Int))]) ∈ selectContigs contigs cfg.regions := by
+          unfold selectContigs
+          rw [hreg]
+          exact List.mem_filterMap.2 ⟨ci, hci, rfl⟩
+        rcases haplotagLoop_noskip cfg hs _ w hp _ hm with e | e
+        · exact Or.inl e
+        · right; simp only at e; simp [e]
+    · right; simp [hw]
+  have : expectedPlaced cfg contigs = placedIn contigs := by
+    unfold expectedPlaced placedIn
+    apply flatMap_congr_mem
+    intro ci hci
+    obtain ⟨c, i⟩ := ci
+    simp only
+    rcases hall (c, i) hci with e | e
+    · simp only at e; simp [e]
+    · simp only at e
+      simp only [e, hreg, wantedAln, if_true]
+      rw [List.filter_eq_self.2 (fun _ _ => rfl)]
+  rw [this, hreg]
+  rfl
+
+/-- **the haplotag list names what was written**: one line per written placed alignment that is neither secondary nor
+supplementary, in output order, with the HP and PS of that very record ("none" when the record carries none). -/
+theorem haplotag_list_matches_tags {α} {cfg : Config} {contigs : List (ContigIn α)} {w : List (Written α)}
+    (h : haplotagPlaced cfg contigs = .ok w) :
+    listLines w = (w.filter fun t => !(t.2.1.secondary || t.2.1.supplementary)).map
+      fun t => ⟨t.2.1.name, t.2.1.tags.hp, t.2.1.tags.ps, t.1⟩ := by
+  have hent : ∀ t ∈ w, t.2.2 = (t.2.1.tags.hp, t.2.1.tags.ps) := by
+    intro t ht
+    obtain ⟨c, rg, ctx, _, _, a, _, h1, h2⟩ := haplotagLoop_mem cfg _ w h t ht
+    rw [h2, h1]
+    exact listEntry_eq ctx a
+  unfold listLines
+  have hgen : ∀ l : List (Written α), (∀ t ∈ l, t.2.2 = (t.2.1.tags.hp, t.2.1.tags.ps)) →
+      (l.filterMap fun (t : Written α) =>
+        if t.2.1.secondary || t.2.1.supplementary then none else some (⟨t.2.1.name, t.2.2.1, t.2.2.2, t.1⟩ : ListLine))
+      = (l.filter fun t => !(t.2.1.secondary || t.2.1.supplementary)).map
+          fun t => (⟨t.2.1.name, t.2.1.tags.hp, t.2.1.tags.ps, t.1⟩ : ListLine) := by
+    intro l
+    induction l with
+    | nil => intro _; rfl
+    | cons t rest ih =>
+      intro hl
+      have ht := hl t List.mem_cons_self
+      have ih' := ih (fun x hx => hl x (List.mem_cons_of_mem _ hx))
+      rw [List.filterMap_cons, List.filter_cons]
+      cases hb : (t.2.1.secondary || t.2.1.supplementary)
+      · simp only [Bool.false_eq_true, if_false, Bool.not_false, if_true, List.map_cons, ih', ht]
+      · simp only [if_true, Bool.not_true, Bool.false_eq_true, if_false, ih']
+  exact hgen w hent
+
+/-- **written_tags_sound** (which alignments get which tags): every written placed alignment stems from an input
+alignment `a` of its contig, and either carries none of HP/PC/PS, or `a` is eligible (mapped, not secondary, not
+supplementary unless `--tag-supplementary`), its contig is known to the VCF, and
+* HP = h+1, PC = q, PS = ps where `tagDecision` yields `(h, q, ps)` on the variants of a read cloud of one of the samples
+  that contains a read with `a`'s name (`Justified`; a cloud is a single read unless linked reads are on), or
+* HP = h+1, PS = ps without PC: linked reads are on, `a` carries a barcode, and a tagged cloud with that barcode whose
+  seed read starts within the cut-off of `a` was decided `(h, ps)` (`JustifiedBx`). -/
+theorem written_tags_sound {α} {cfg : Config} {contigs : List (ContigIn α)} {w : List (Written α)}
+    (hc : 0 ≤ cfg.cutoff) (h : haplotagPlaced cfg contigs = .ok w) :
+    ∀ t ∈ w, ∃ c a, contigs[t.1]? = some c ∧ a ∈ c.alns ∧ t.2.1.erase = a.erase ∧
+      (t.2.1.tags = {} ∨
+        (ignoreRead cfg.tagSupplementary a.unmapped a.secondary a.supplementary = false ∧ c.inVcf = true ∧
+          ((∃ h q ps, t.2.1.tags = ⟨some (h + 1), some q, some ps⟩ ∧ Justified cfg.ploidy c.samples a.name h q ps) ∨
+           (∃ tag start h ps, t.2.1.tags = ⟨some (h + 1), none, some ps⟩ ∧ cfg.ignoreLinked = false ∧
+              a.bx = some tag ∧ absDiff start a.refStart ≤ cfg.cutoff ∧
+              JustifiedBx cfg.ploidy cfg.cutoff c.samples tag start h ps)))) := by
+  intro t ht
+  obtain ⟨c, rg, ctx, hsel, hplan, a, ha, h1, _⟩ := haplotagLoop_mem cfg _ w h t ht
+  refine ⟨c, a, mem_selectContigs hsel, ha, by rw [h1]; exact erase_tagAln ctx a, ?_⟩
+  rcases (planContig_some hplan).2 with ⟨_, _, _, hctx⟩ | ⟨hv, _, hctx⟩
+  · left; rw [h1, hctx]; exact tagAln_emptyCtx cfg a
+  · have hgood := good_prepareAll cfg.ploidy cfg.ignoreLinked c.samples hc
+    rw [h1]
+    unfold tagAln
+    split
+    · left; rfl
+    · rename_i hign
+      have hign' : ignoreRead cfg.tagSupplementary a.unmapped a.secondary a.supplementary = false := by
+        rw [hctx] at hign; simpa using hign
+      simp only
+      rcases newTags_cases ctx a.name a.refStart a.bx with e | ⟨hh, q, ps, hm, e⟩ | ⟨tag, st, hh, ps, hbx, hil, hm, hd, e⟩
+      · left; exact e
+      · right
+        refine ⟨hign', hv, Or.inl ⟨hh, q, ps, e, ?_⟩⟩
+        rw [hctx] at hm
+        exact hgood.1 _ hm
+      · right
+        refine ⟨hign', hv, Or.inr ⟨tag, st, hh, ps, e, ?_, hbx, ?_, ?_⟩⟩
+        · rw [hctx] at hil; exact hil
+        · rw [hctx] at hd; exact hd
+        · rw [hctx] at hm; exact hgood.2 _ hm
+
+/-- the chain closed: an alignment written with a PC tag carries the haplotype that agrees strictly best, by summed
+allele quality, with the alleles of a read (cloud) of its name within the reported phase set; PC is the margin. -/
+theorem written_pc_tag_best_agreeing {α} {cfg : Config} {contigs : List (ContigIn α)} {w : List (Written α)}
+    (hc : 0 ≤ cfg.cutoff) (h : haplotagPlaced cfg contigs = .ok w) (t : Written α) (ht : t ∈ w)
+    {q : Nat} (hq : t.2.1.tags.pc = some q) :
+    ∃ c s, ∃ group : List SetRead, ∃ hh ps, contigs[t.1]? = some c ∧ s ∈ c.samples ∧ (∀ r ∈ group, r ∈ s.2) ∧
+      (∃ r ∈ group, r.name = t.2.1.name) ∧ t.2.1.tags = ⟨some (hh + 1), some q, some ps⟩ ∧ hh < cfg.ploidy ∧ 0 < q ∧
+      (∀ j, j < cfg.ploidy → j ≠ hh →
+        agreeScore s.1 (group.flatMap (·.variants)) ps j + q ≤ agreeScore s.1 (group.flatMap (·.variants)) ps hh) ∧
+      (∃ j, j < cfg.ploidy ∧ j ≠ hh ∧
+        agreeScore s.1 (group.flatMap (·.variants)) ps j + q = agreeScore s.1 (group.flatMap (·.variants)) ps hh) := by
+  obtain ⟨c, a, hci, _, her, hcase⟩ := written_tags_sound hc h t ht
+  have hname : t.2.1.name = a.name := by
+    have := congrArg Aln.name her
+    simpa [Aln.erase] using this
+  rcases hcase with e | ⟨_, _, ⟨hh, q', ps, e, s, hs, group, hin, hnm, hd⟩ | ⟨tag, st, hh, ps, e, _⟩⟩
+  · rw [e] at hq; cases hq
+  · rw [e] at hq
+    simp only [Option.some.injEq] at hq
+    subst hq
+    obtain ⟨b1, b2, b3, b4, _, _⟩ := best_agreeing hd
+    exact ⟨c, s, group, hh, ps, hci, hs, hin, by rw [hname]; exact hnm, e, b1, b2, b3, b4⟩
+  · rw [e] at hq; cases hq
+
+/-- non-vacuity of the run theorems, and the defect F70 on the faithful model: contig 1 is unknown to the VCF; with
+`--skip-missing-contigs` its alignment `y` is missing from the output (`writeMissing`, the repair, writes it without
+tags); without the option the run fails.  Contig 0: `x` is tagged (stale HP 2 / PC 9 / PS 99 replaced), its
+supplementary record and the secondary `w` lose their tags and do not appear in the list, `u` has no read. -/
+example :
+    let info : PhaseInfo := [(10, (7, [0, 1])), (20, (7, [1, 0]))]
+    let rd : SetRead := ⟨"x", 5, none, [⟨10, 0, 30⟩, ⟨20, 1, 30⟩]⟩
+    let mk (n : String) (un sec sup : Bool) (s e : Int) (t : Tags) : Aln Nat := ⟨0, n, un, sec, sup, s, e, none, t⟩
+    let c0 : ContigIn Nat := ⟨[mk "x" false false false 5 40 ⟨some 2, some 9, some 99⟩, mk "x" false false true 50 60 {},
+      mk "w" false true false 55 70 ⟨some 1, none, some 3⟩, mk "u" false false false 60 90 ⟨some 1, none, some 3⟩], true, [(info, [rd])]⟩
+    let c1 : ContigIn Nat := ⟨[mk "y" false false false 1 30 ⟨some 1, some 5, some 8⟩], false, []⟩
+    let tail : List (Aln Nat) := [mk "t" true false false 0 0 ⟨some 1, none, none⟩]
+    let cfg : Config := ⟨2, 50000, false, false, true, none, false⟩
+    let view (a : Aln Nat) := (a.name, a.tags)
+    ((haplotag cfg [c0, c1] tail).toOption.map fun out => out.alns.map view) =
+      some [("x", ⟨some 1, some 60, some 7⟩), ("x", {}), ("w", {}), ("u", {}), ("t", ⟨some 1, none, none⟩)] ∧
+    ((haplotag cfg [c0, c1] tail).toOption.map fun out => out.list) =
+      some [⟨"x", some 1, some 7, 0⟩, ⟨"u", none, none, 0⟩] ∧
+    ((haplotag { cfg with writeMissing := true } [c0, c1] tail).toOption.map fun out => out.alns.map view) =
+      some [("x", ⟨some 1, some 60, some 7⟩), ("x", {}), ("w", {}), ("u", {}), ("y", {}), ("t", ⟨some 1, none, none⟩)] ∧
+    ((haplotag { cfg with writeMissing := true } [c0, c1] tail).toOption.map fun out => out.list) =
+      some [⟨"x", some 1, some 7, 0⟩, ⟨"u", none, none, 0⟩, ⟨"y", none, none, 1⟩] ∧
+    (match haplotag { cfg with skipMissing := false } [c0, c1] tail with
+     | .ok _ => none
+     | .error e => some e) = some (.contigNotInVcf 1) ∧
+    ((haplotag { cfg with regions := some [(0, (45, some 58)), (0, (0, some 10))], tagSupplementary := true }
+        [c0, c1] tail).toOption.map fun out => out.alns.map view) =
+      some [("x", ⟨some 1, some 60, some 7⟩), ("x", ⟨some 1, some 60, some 7⟩), ("w", {})] := by
+  refine ⟨by decide, by decide, by decide, by decide, by decide, by decide⟩
+
+/-- **the run ends normally** exactly as far as the contig check allows: if every contig with alignments is known to the
+VCF (or `--skip-missing-contigs` is given), `--ploidy` is at least 2 and the read sets are what `ReadSetReader` delivers for
+`get_variant_information`'s positions (alleles 0/1 at positions with phase information: `Covered`, cf.
+`variant_positions_have_phase_info`), then no exception of `prepare_haplotag_information` is reachable and the output is complete. -/
+theorem haplotag_succeeds {α} (cfg : Config) (contigs : List (ContigIn α)) (unplaced : List (Aln α)) (hp : 2 ≤ cfg.ploidy)
+    (hvcf : ∀ c ∈ contigs, c.alns = [] ∨ c.inVcf = true ∨ cfg.skipMissing = true)
+    (hcov : ∀ c ∈ contigs, ∀ s ∈ c.samples, ∀ r ∈ s.2, Covered s.1 r) :
+    ∃ out, haplotag cfg contigs unplaced = .ok out := by
+  obtain ⟨w, hw⟩ := haplotagLoop_ok cfg (selectContigs contigs cfg.regions) (fun t ht =>
+    ⟨hvcf _ (mem_of_mem_selectContigs ht), prepareAll_no_error hp _ (hcov _ (mem_of_mem_selectContigs ht))⟩)
+  exact ⟨_, by unfold haplotag haplotagPlaced; rw [hw]⟩
+
+/-- the hypotheses of `haplotag_succeeds` are satisfiable (read `x` of the example below) -/
+example : ∃ out, haplotag (α := Nat) ⟨2, 50000, false, false, false, none, false⟩
+    [⟨[⟨0, "x", false, false, false, 5, 40, none, {}⟩], true,
+      [([(10, (7, [0, 1])), (20, (7, [1, 0]))], [⟨"x", 5, none, [⟨10, 0, 30⟩, ⟨20, 1, 30⟩]⟩])]⟩] [] = .ok out := by
+  apply haplotag_succeeds _ _ _ (by decide)
+  · intro c hc
+    simp only [List.mem_cons, List.mem_nil_iff, or_false] at hc
+    subst hc
+    exact Or.inr (Or.inl rfl)
+  · intro c hc s hs r hr
+    simp only [List.mem_cons, List.mem_nil_iff, or_false] at hc
+    subst hc
+    simp only [List.mem_cons, List.mem_nil_iff, or_false] at hs
+    subst hs
+    simp only [List.mem_cons, List.mem_nil_iff, or_false] at hr
+    subst hr
+    intro v hv
+    simp only [List.mem_cons, List.mem_nil_iff, or_false] at hv
+    rcases hv with rfl | rfl <;> decide
+
+/-- conversely the only other exit of the loop: a contig with alignments that the VCF does not know, without the option -/
+example : (match haplotag (α := Nat) ⟨2, 50000, false, false, false, none, false⟩
+      [⟨[⟨0, "y", false, false, false, 1, 30, none, {}⟩], false, []⟩] [] with
+    | .ok _ => none | .error e => some e) = some (.contigNotInVcf 0) := by decide
+
+/-- tags cross samples (finding F71) on the faithful model: the two dictionaries are keyed by read name / barcode only.
+Sample 2's read `x` ties (its alleles 1,0 agree once with each haplotype of sample 1's phasing and it is not even asked
+for), sample 2's read `n` has no variants; both alignments are written with the decision taken for SAMPLE 1's read `x`
+(`written_tags_sound` only promises a read cloud *with the same name* in *one of* the samples). -/
+example :
+    let info1 : PhaseInfo := [(10, (101, [0, 1])), (20, (101, [0, 1]))]
+    let x1 : SetRead := ⟨"x", 5, some "B1", [⟨10, 0, 30⟩, ⟨20, 0, 30⟩]⟩
+    let mk (n : String) (s : Int) (bx : Option String) : Aln Nat := ⟨0, n, false, false, false, s, s + 100, bx, {}⟩
+    let c0 : ContigIn Nat := ⟨[mk "x" 5 (some "B1"), mk "x" 6 none, mk "n" 200 (some "B1")], true, [(info1, [x1])]⟩
+    let cfg : Config := ⟨2, 50000, false, false, false, none, false⟩
+    tagDecision 2 info1 [⟨10, 1, 30⟩, ⟨20, 0, 30⟩] = .untagged ∧
+    ((haplotag cfg [c0] []).toOption.map fun out => out.alns.map (fun a => (a.name, a.refStart, a.tags))) =
+      some [("x", 5, ⟨some 1, some 60, some 101⟩), ("x", 6, ⟨some 1, some 60, some 101⟩),
+        ("n", 200, ⟨some 1, none, some 101⟩)] := by
+  refine ⟨by decide, by decide⟩
 
 end WhVerif.Props.C10
